@@ -32,6 +32,10 @@ CLAIMED["C05"] = ("model_checking", "5 C05",
     "The real process_keyqueue / Screen.parse_input (with its partial-code carry-over) run on fully symbolic byte streams; for every cut point the solver shows the "
     "fragmented, the timed-out and the whole delivery yield equal event lists, that nothing is dropped and nothing raises.",
     "z3 trusted; stream length <= 4 (quick) / 6 (thorough); two fragments; double-byte codec results abstracted by uninterpreted functions.")
+CLAIMED["C15"] = ("model_checking", "5 C15",
+    "Inductive step: every CSI command of the current CSI_COMMANDS table (through parse_csi), every C0 control and printable byte (through addbyte) and resize, from an "
+    "arbitrary valid TermCanvas state on small grids; invariants on every path and one-step refinement of an independent VT100 model; arbitrary short byte streams never raise.",
+    "z3 trusted; the finite state/parameter space is enumerated through the solver (indices are concretised by list operations), modes stay symbolic; grids <= 3x3 quick / 5x4 thorough; the VT100 model is part of the trusted base.")
 NOT_YET = {}
 TECH = "bounded symbolic execution of the real urwid code (AST-lifted import of /repo) with z3 deciding every path obligation; counterexamples replayed on the un-lifted code"
 def main():
